@@ -128,6 +128,11 @@ func (gc *GarbageCollector) GarbageCollectWatchesNow(ctx context.Context) error 
 
 	stop := make([]engine.WatchID, 0)
 	for _, wid := range running {
+		// Only composed resource watches are eligible for garbage collection.
+		// The controller always needs its XR and CompositionRevision watches.
+		if wid.Type != engine.WatchTypeComposedResource {
+			continue
+		}
 		if !used[wid] {
 			stop = append(stop, wid)
 		}
